@@ -1,6 +1,7 @@
 import Chain33Model.Model.C26
 import Chain33Model.Proofs.C26
 import Chain33Model.Proofs.C25Deliver
+import Chain33Model.Proofs.C26Restart
 /-!
 C26 — Block sequence log replays to the best chain.  Property theorems.
 
@@ -79,6 +80,66 @@ example :
       [⟨1, 0, 1, 1, []⟩, ⟨2, 1, 2, 1, []⟩, ⟨4, 1, 2, 9, []⟩, ⟨3, 2, 3, 1, []⟩]
     seqLog s = [some (true, 0), some (true, 1), some (true, 2), some (false, 2), some (true, 4)] ∧
     replay (seqLog s) = some [4, 1, 0] := by
+  decide
+
+/-! ## Across restarts, finaliser requests, clock ticks and orphan-pool evictions
+
+`runX (initX M F m true g lim ttl) es` / `runB (init 0 m true g) es`: the events `es` (deliver /
+tick / finalize / restart) on the extension layer of `Model/C25Ext.lean`, resp. on the idealised
+chain model; `none` would be the start-up panic of a restart that misses a main-chain header. -/
+open C25X
+
+/-- **seq_consecutive over restarts**: after ANY events on ANY blocks — restarts, finaliser
+requests, ticks, evictions and expiries in the orphan pool included — the numbering has no gap. -/
+theorem seq_consecutive_events {M : Type} [OMap M] (F m : Nat) (g : Block) (lim ttl : Nat)
+    (es : List Event) (x : XState M) (hr : runX (initX M F m true g lim ttl) es = some x) :
+    0 ≤ x.base.lastSeq ∧ ∀ i : Nat, (x.base.seqTab i).isSome ↔ (i : Int) ≤ x.base.lastSeq := by
+  have h0 : SeqOnly (init F m true g) (init F m true g) :=
+    ⟨(logInv_init F m true g).1, (logInv_init F m true g).2.1⟩
+  have h := seqOnly_runX _ (init_lastSeq_ge F m true g) es (initX M F m true g lim ttl) x h0 hr
+  have hrec := recSeq_runX true es (initX M F m true g lim ttl) x rfl hr
+  exact ⟨h.1.2.2 hrec, h.1.2.1⟩
+
+/-- **seq_no_reuse over restarts**: no event ever rewrites an assigned number. -/
+theorem seq_no_reuse_events {M : Type} [OMap M] (F m : Nat) (g : Block) (lim ttl : Nat)
+    (es : List Event) (e : Event) (x x' : XState M)
+    (hr : runX (initX M F m true g lim ttl) es = some x) (hs : stepX x e = some x') :
+    x.base.lastSeq ≤ x'.base.lastSeq ∧
+      ∀ i : Nat, (i : Int) ≤ x.base.lastSeq → x'.base.seqTab i = x.base.seqTab i := by
+  have h0 : SeqOnly (init F m true g) (init F m true g) :=
+    ⟨(logInv_init F m true g).1, (logInv_init F m true g).2.1⟩
+  have h := seqOnly_runX _ (init_lastSeq_ge F m true g) es (initX M F m true g lim ttl) x h0 hr
+  have h' : SeqOnly x.base x.base := ⟨h.1, ⟨Int.le_refl _, fun _ _ => rfl⟩⟩
+  exact (seqOnly_stepX x.base h.1.1 h' hs).2
+
+/-- **replay_eq_chain over restarts**: deliveries drawn from a block tree (any order, duplicates),
+interleaved with any number of restarts and clock ticks: no restart panics, and at the end the
+replay of the log is exactly the height index of the best chain.  (Finalised height 0 and no
+finaliser requests in this statement; orphan pool of the idealised model.) -/
+theorem replay_eq_chain_restart {g : Block} {T : List Block} (ht : Tree g T) (m : Nat)
+    (es : List Event) (hds : ∀ b ∈ delivered es, b ∈ T) (hnf : ∀ h id, Event.finalize h id ∉ es) :
+    ∃ s, runB (init 0 m true g) es = some s ∧
+      ∃ stack, replay (seqLog s) = some stack ∧ replayedChain s = some stack.reverse ∧
+        mainChain s = stack.reverse.map some ∧ cleanAbove s = true := by
+  have hinit : RestartInv g T m (init 0 m true g) (init 0 m true g) :=
+    ⟨logInv_init 0 m true g, paired_init ht m, rfl⟩
+  obtain ⟨s, hrun, hinv⟩ := restartInv_runB ht m _ (init_lastSeq_ge 0 m true g) es _ hinit hds hnf
+  obtain ⟨s2, hrel, hs, _, _⟩ := hinv.paired
+  have hrep := hinv.log.2.2 hinv.recSeq
+  obtain ⟨t, r, hb2⟩ := List.exists_cons_of_ne_nil hs.inv.linked.ne_nil
+  have hb1 : s.best = t :: r := by rw [hrel.best]; exact hb2
+  obtain ⟨h1, h2⟩ := chain_of_view hb1 (hb2 ▸ hs.inv.linked)
+    (fun h => by rw [hrel.h2h, hs.inv.h2h h, hrel.best])
+    (by rw [hrel.last]; exact hs.inv.last t r hb2)
+  exact ⟨s, hrun, s.best.map (·.id), hrep,
+    by simp only [replayedChain]; rw [show replay (seqLog s) = _ from hrep]; rfl, h1, h2⟩
+
+/-- Non-vacuity: a run with a reorganisation between two restarts (margin 1). -/
+example :
+    (runB (init 0 1 true ⟨0, 0, 0, 5, []⟩)
+      [.deliver ⟨1, 0, 1, 1, []⟩, .deliver ⟨2, 1, 2, 1, []⟩, .restart, .deliver ⟨4, 1, 2, 9, []⟩, .restart,
+       .deliver ⟨3, 2, 3, 1, []⟩]).map (fun s => (seqLog s, s.best.map (·.id), s.orphans.map (·.id))) =
+    some ([some (true, 0), some (true, 1), some (true, 2), some (false, 2), some (true, 4)], [4, 1, 0], [3]) := by
   decide
 
 end C26
